@@ -26,6 +26,7 @@ EXPLANATION = (
     "format_measurement; __format__ delegates to the registry formatter. Not decided (most of the property): error "
     "scaling under conversion, first-order propagation, tokenizer look-ahead correctness, rendered strings.")
 EXPLANATION += ' Also decided (rules added after the second round of seeded changes): token conservation and look-ahead offset agreement of the uncertainty tokenizer; to_compact chooses the prefix from the (nominal) magnitude in the unprefixed unit.'
+EXPLANATION += ' Also decided (round 5): Measurement.__new__ re-binds `value` only to the magnitude of a quantity passed in - an uncertain number stays the same random variable (correlations survive conversions and arithmetic).'
 
 
 def _lt_zero(a, text=None):
